@@ -119,7 +119,7 @@ def main(tier, replay=None):
             other = [c for c in single if not c[0][1].startswith("tool")]
             rnd.shuffle(other)
             # each linker fault costs a linker rebuild (~13 s): three of them in the quick tier
-            lk_pick = [c for c in lk if (c[0][1].endswith("link") and c[0][2] in ("empty", "truncate")) or (c[0][1].endswith(".version") and c[0][2] == "delete")]
+            lk_pick = [c for c in lk if (c[0][1].endswith("link") and c[0][2] in ("empty", "truncate", "delete")) or (c[0][1].endswith(".version") and c[0][2] == "delete")]
             cases = other[:18] + lk_pick + cases[len(targets) * 3:][:5] + cases[-4 - len(partial_linker):]
         st = chk.cov["streams"].setdefault("e2e:faults", {"entries_of_module_in_GARBLE_CACHE": len(new_g), "entries_of_module_in_GOCACHE": len(new_go), "linker_files": len(linker), "fault_cases": 0, "identical_to_cold": 0})
         for case in cases:
